@@ -1,2 +1,3 @@
 import Dashu.Driver.Bits
-def main (args : List String) : IO UInt32 := Dashu.Driver.runMain Dashu.Driver.Bits.dispatch args
+import Dashu.Driver.BitsHuge
+def main (args : List String) : IO UInt32 := Dashu.Driver.runMain Dashu.Driver.BitsHuge.dispatch args
